@@ -168,3 +168,9 @@ Theorem connected_stable : forall request soc db cap dw s e,
   connected s = true -> connected (fst (cstep request soc db cap dw s e)) = true.
 Proof. exact EquivClient_proofs.connected_stable. Qed.
 Print Assumptions connected_stable.
+
+(* the value of the cap (no statement fixes it, but every size-related expectation of the harness and of users does):
+   10 * 1024 * 1024 *)
+Theorem max_response_body_value : gen_MAX_RESPONSE_BODY_SIZE = 10485760%N.
+Proof. exact EquivClient_proofs.max_response_body_value. Qed.
+Print Assumptions max_response_body_value.
